@@ -545,6 +545,10 @@ class SimpleFormula(
         evaluation context rather than the data context.
         """
 
+        # Names written in backticks inside Python code: each is one variable,
+        # whatever dots it contains.
+        quoted: set[str] = set()
+
         def get_factor_variables(factor: Factor) -> Iterable[Variable]:
             if factor.eval_method is Factor.EvalMethod.LOOKUP:
                 return [Variable(factor.expr, roles=["value"])]
@@ -552,6 +556,7 @@ class SimpleFormula(
                 return []
             aliases: dict[str, str] = {}
             expr = sanitize_variable_names(factor.expr, aliases, aliases)
+            quoted.update(aliases.values())
             return get_expression_variables(expr, {}, aliases)
 
         variables: list[Variable] = [
@@ -577,6 +582,7 @@ class SimpleFormula(
         return set(
             filter(
                 lambda variable: variable in lookups
+                or variable in quoted
                 or variable.split(".", 1)[0] not in TRANSFORMS,
                 Variable.union(variables),
             )
